@@ -177,6 +177,7 @@ func cmdRun(args []string) {
 	cross := fs.String("cross", "", "comma-separated second solvers for the cross-check (e.g. z3-new,cvc5)")
 	bg := fs.String("bg", "", "comma-separated background loops to start as threads (backgroundFlush,compactionWorker,...)")
 	conccap := fs.Int("conccap", 0, "cap on the number of values a symbolic length/index may be forked into")
+	mapOrders := fs.Bool("maporders", false, "fork over the iteration order of small maps in kevo's code")
 	tracePath := fs.String("trace", "", "replay file: re-execute that one path with a trace of scheduling points")
 	fs.Parse(args)
 	rel := strings.TrimPrefix(*pkgRel, "./")
@@ -204,6 +205,7 @@ func cmdRun(args []string) {
 	}
 	o := &Opts{Workers: *workers, Preempt: *pbound, MaxZeros: *maxZeros, Thorough: *thorough, MaxPaths: *maxPaths, BudgetS: *budget, Verbose: true, Samples: 3, Validate: *validate, StepCap: *stepcap, ConcCap: *conccap}
 	o.NoRaces = *noraces
+	o.MapOrders = *mapOrders
 	if *cross != "" {
 		o.Cross, o.CrossMaxQ, o.CrossS = strings.Split(*cross, ","), 300, 120
 	}
